@@ -279,7 +279,7 @@ func (a *SSHAdapter) doDownload(t *Transfer, workerNum int, f *os.File, cb Progr
 	}
 
 	err = tools.RenameFileCopyPermissions(dlfilename, t.Path)
-	if _, err2 := os.Stat(t.Path); err2 == nil {
+	if err != nil && tools.VerifyFileHash(t.Oid, t.Path) == nil {
 		// Target file already exists, possibly was downloaded by other git-lfs process
 		return nil
 	}
